@@ -12,7 +12,9 @@ use std::sync::atomic::{AtomicU64, Ordering};
 use std::time::{Duration, Instant};
 
 pub const DEFAULT_SEED: u64 = 0x6b616e617461;
-pub const VERIF_DIR: &str = "/verif";
+pub fn verif_dir() -> String {
+    std::env::var("VERIF_DIR").unwrap_or_else(|_| "/verif".to_string())
+}
 
 // ---------------------------------------------------------------------------------------------
 // panic capture
@@ -117,7 +119,7 @@ pub struct KnownFindings {
 }
 
 pub fn load_known() -> KnownFindings {
-    let p = format!("{VERIF_DIR}/known_findings.json");
+    let p = format!("{}/known_findings.json", verif_dir());
     match std::fs::read_to_string(&p) {
         Ok(s) => serde_json::from_str(&s).unwrap_or_else(|e| {
             eprintln!("HARNESS-ERROR: cannot parse {p}: {e}");
@@ -940,7 +942,7 @@ pub fn run_main(a: &RunArgs) -> i32 {
             Some(fv) if fv.rule == v.rule => (small, fv, true),
             _ => (case.clone(), v.clone(), false),
         };
-        let dir = format!("{VERIF_DIR}/replays/{}", a.prop);
+        let dir = format!("{}/replays/{}", verif_dir(), a.prop);
         let _ = std::fs::create_dir_all(&dir);
         let slug: String = fv.rule.chars().map(|c| if c.is_ascii_alphanumeric() { c } else { '_' }).take(60).collect();
         let path = format!("{dir}/{slug}-{:016x}.json", small.seed);
@@ -998,8 +1000,8 @@ pub fn run_main(a: &RunArgs) -> i32 {
         "wall_s": wall,
         "violations": n_viol,
     });
-    let _ = std::fs::create_dir_all(format!("{VERIF_DIR}/evidence"));
-    std::fs::write(format!("{VERIF_DIR}/evidence/{}.json", a.prop), serde_json::to_string_pretty(&ev).unwrap()).expect("write evidence");
+    let _ = std::fs::create_dir_all(format!("{}/evidence", verif_dir()));
+    std::fs::write(format!("{}/evidence/{}.json", verif_dir(), a.prop), serde_json::to_string_pretty(&ev).unwrap()).expect("write evidence");
     println!(
         "property={} runs={} passed={} skipped={} distinct_nontrivial={} sim_ms={} wall_s={:.1} known_hits={} violations={}",
         a.prop,
